@@ -460,6 +460,14 @@ func buildSimbox(rules []SRule) (*simbox.Simbox, error) {
 	return sb2, nil
 }
 
+// stopVM ends the worker goroutines of a launched VM when the tree under test offers a way to do it
+// (VM.Stop_processors exists since the fix for the worker leak); older trees simply leak them.
+func stopVM(vm *bondmachine.VM) {
+	if s, ok := interface{}(vm).(interface{ Stop_processors() }); ok {
+		s.Stop_processors()
+	}
+}
+
 // runReplica: cmd/bondmachine/bondmachine.go lines 923-1278, with fmt.Print/csv.Write replaced by
 // appends, log.Fatal/panic(check) replaced by an error return, and two observation points (Pre/Post).
 func runReplica(m Mach, bm *bondmachine.Bondmachine, sbox *simbox.Simbox, interactions int, stopOn int) (out runOut) {
@@ -505,6 +513,7 @@ func runReplica(m Mach, bm *bondmachine.Bondmachine, sbox *simbox.Simbox, intera
 		out.Err = "panic:" + err.Error()
 		return
 	}
+	defer stopVM(vm) // not in the CLI (the process exits); keeps the test process small
 
 	// report header (the CLI writes it only with -sim-report; every run here has one)
 	if sconfig.GetTicks {
@@ -830,6 +839,7 @@ func predict(m Mach, bm *bondmachine.Bondmachine, rules []mrule, interactions, s
 		out.Err = "panic:" + err.Error()
 		return
 	}
+	defer stopVM(vm)
 	validOf := func(o objRef) (bool, bool) { // (has a valid flag, its value)
 		switch o.kind {
 		case "i":
